@@ -18,9 +18,33 @@ use std::sync::mpsc;
 use std::time::{Duration, Instant};
 use vcore::{Report, Tier, Violation};
 
-const BATCH_DEADLINE: Duration = Duration::from_secs(5); // per string inside a batch (a string = up to ~36 tiny calls)
-const SOLO_DEADLINE: Duration = Duration::from_secs(30); // per single call when re-run alone
+/// A call is a *hang candidate* in a batch when the child burnt this much CPU, or
+/// this much wall time, without leaving the call (normal calls take 10 us .. 20 ms).
+const BATCH_LIMITS: Limits = Limits { cpu_ms: 200, wall: Duration::from_secs(5) };
+/// Verdict "timeout": re-run alone, one call did not return after this much CPU or wall time.
+const SOLO_LIMITS: Limits = Limits { cpu_ms: 3_000, wall: Duration::from_secs(30) };
 const STARTUP_DEADLINE: Duration = Duration::from_secs(120);
+/// After this many full (solo) confirmations of a hang with the same (language, stage),
+/// further candidates from the tiny-string families are recorded without the 3 s re-run.
+const FULL_CONFIRMATIONS: u32 = 2;
+const POLL: Duration = Duration::from_millis(50);
+
+#[derive(Clone, Copy)]
+struct Limits {
+    cpu_ms: u64,
+    wall: Duration,
+}
+
+/// CPU time (user+system, all threads) consumed so far by process `pid`, in ms.
+fn cpu_ms(pid: u32) -> Option<u64> {
+    let s = std::fs::read_to_string(format!("/proc/{pid}/stat")).ok()?;
+    let rest = &s[s.rfind(')')? + 1..];
+    let f: Vec<&str> = rest.split_whitespace().collect();
+    // after the comm field: state is f[0]; utime/stime are fields 14/15 of the full line = f[11], f[12]
+    let ut: u64 = f.get(11)?.parse().ok()?;
+    let st: u64 = f.get(12)?.parse().ok()?;
+    Some((ut + st) * 10) // USER_HZ = 100 on Linux
+}
 
 fn main() {
     let argv: Vec<String> = std::env::args().skip(1).collect();
@@ -53,6 +77,8 @@ enum End {
 }
 
 struct ChildRun {
+    stuck_cpu_ms: u64,
+    stuck_wall_ms: u64,
     lines: Vec<String>, // protocol lines other than S/C (P, D)
     last_s: Option<usize>,
     last_c: Option<String>,
@@ -86,8 +112,8 @@ fn classify_death(status: std::process::ExitStatus, stderr: &str) -> (&'static s
     (kind, format!("{how}; stderr: {tail}"))
 }
 
-/// Run one child; `deadline` applies between consecutive progress markers (S or C lines).
-fn run_child(args: &[String], deadline: Duration) -> ChildRun {
+/// Run one child; the limits apply to the time spent under one progress marker (S or C line).
+fn run_child(args: &[String], limits: Limits) -> ChildRun {
     let exe = std::env::current_exe().unwrap_or_else(|e| vcore::machinery_failure(&format!("current_exe: {e}")));
     let mut child: Child = Command::new(exe)
         .args(args)
@@ -122,36 +148,57 @@ fn run_child(args: &[String], deadline: Duration) -> ChildRun {
         let _ = stderr.read_to_end(&mut buf);
         String::from_utf8_lossy(&buf).into_owned()
     });
-    let mut run = ChildRun { lines: vec![], last_s: None, last_c: None, end: End::Finished };
+    let mut run = ChildRun { stuck_cpu_ms: 0, stuck_wall_ms: 0, lines: vec![], last_s: None, last_c: None, end: End::Finished };
+    let pid = child.id();
     let mut finished = false;
     let mut timed_out = false;
-    let mut mark = Instant::now();
+    let spawned = Instant::now();
     let mut started = false;
+    let mut seq: u64 = 0; // number of markers seen
+    let mut last_poll = Instant::now();
+    let mut poll_seq: u64 = u64::MAX;
+    let mut poll_cpu: u64 = 0;
+    let mut stuck_cpu: u64 = 0;
+    let mut stuck_since = Instant::now();
     loop {
-        let limit = if started { deadline } else { STARTUP_DEADLINE };
-        let remaining = limit.checked_sub(mark.elapsed()).unwrap_or(Duration::ZERO);
-        match rx.recv_timeout(remaining) {
+        match rx.recv_timeout(POLL) {
             Ok(line) => {
                 if let Some(r) = line.strip_prefix("S ") {
                     run.last_s = r.trim().parse().ok();
                     run.last_c = None;
                     started = true;
-                    mark = Instant::now();
+                    seq += 1;
                 } else if let Some(r) = line.strip_prefix("C ") {
                     run.last_c = Some(r.trim().to_string());
-                    mark = Instant::now();
+                    seq += 1;
                 } else if line == "E" {
                     finished = true;
                 } else if !line.is_empty() {
                     run.lines.push(line);
                 }
             }
-            Err(mpsc::RecvTimeoutError::Timeout) => {
+            Err(mpsc::RecvTimeoutError::Timeout) => {}
+            Err(mpsc::RecvTimeoutError::Disconnected) => break,
+        }
+        if last_poll.elapsed() >= POLL {
+            last_poll = Instant::now();
+            let cpu = cpu_ms(pid).unwrap_or(poll_cpu);
+            if seq == poll_seq {
+                stuck_cpu += cpu.saturating_sub(poll_cpu);
+            } else {
+                stuck_cpu = 0;
+                stuck_since = last_poll;
+                poll_seq = seq;
+            }
+            poll_cpu = cpu;
+            let over = if started { !finished && (stuck_cpu >= limits.cpu_ms || stuck_since.elapsed() >= limits.wall) } else { spawned.elapsed() >= STARTUP_DEADLINE };
+            if over {
                 timed_out = true;
+                run.stuck_cpu_ms = stuck_cpu;
+                run.stuck_wall_ms = stuck_since.elapsed().as_millis() as u64;
                 let _ = child.kill();
                 break;
             }
-            Err(mpsc::RecvTimeoutError::Disconnected) => break,
         }
     }
     let status = child.wait();
@@ -295,7 +342,26 @@ fn death_violation(item: &inputs::Item, call: &str, stage: &str, kind: &str, det
 // solo re-run of one string: exact call, stage and kind of every death
 // ---------------------------------------------------------------------------
 
+static CONFIRMED_HANGS: std::sync::Mutex<BTreeMap<String, u32>> = std::sync::Mutex::new(BTreeMap::new());
+
+fn confirmed_hangs(lang: Lang, stage: &str) -> u32 {
+    CONFIRMED_HANGS.lock().unwrap().get(&format!("{}|{}", lang.name(), stage)).copied().unwrap_or(0)
+}
+fn note_confirmed_hang(lang: Lang, stage: &str) {
+    *CONFIRMED_HANGS.lock().unwrap().entry(format!("{}|{}", lang.name(), stage)).or_insert(0) += 1;
+}
+
+fn stage_of_marker(call: &str) -> &'static str {
+    match call {
+        "probe:parse" => "parse",
+        "probe:translate" => "translate",
+        "probe:bind" => "bind",
+        _ => "execute",
+    }
+}
+
 struct SoloResult {
+    hang_stages: Vec<String>,
     violations: Vec<Violation>,
     deaths: u32,
     timeouts: u32,
@@ -314,7 +380,7 @@ static CASE_SEQ: AtomicUsize = AtomicUsize::new(0);
 fn solo(item: &inputs::Item, fe0_only_from_start: bool) -> SoloResult {
     let file = scratch().join(format!("case-{}.json", CASE_SEQ.fetch_add(1, Ordering::Relaxed)));
     std::fs::write(&file, json!({"lang": item.lang.name(), "query": item.query}).to_string()).unwrap_or_else(|e| vcore::machinery_failure(&format!("case file: {e}")));
-    let mut res = SoloResult { violations: vec![], deaths: 0, timeouts: 0, child_runs: 0, summary: None };
+    let mut res = SoloResult { hang_stages: vec![], violations: vec![], deaths: 0, timeouts: 0, child_runs: 0, summary: None };
     let mut seen: BTreeSet<String> = BTreeSet::new();
     let mut only_fe0 = fe0_only_from_start;
     let mut skip = 0usize;
@@ -328,7 +394,7 @@ fn solo(item: &inputs::Item, fe0_only_from_start: bool) -> SoloResult {
             args.push("--skip-fe".into());
             args.push(skip.to_string());
         }
-        let run = run_child(&args, SOLO_DEADLINE);
+        let run = run_child(&args, SOLO_LIMITS);
         res.child_runs += 1;
         for l in &run.lines {
             if let Some(j) = l.strip_prefix("P ") {
@@ -357,7 +423,7 @@ fn solo(item: &inputs::Item, fe0_only_from_start: bool) -> SoloResult {
             }
             End::Timeout => {
                 res.timeouts += 1;
-                ("timeout", format!("no return within {} s when run alone", SOLO_DEADLINE.as_secs()))
+                ("timeout", format!("run alone, the call did not return: {} ms CPU / {} ms wall spent in it (limits {} ms CPU, {} s wall)", run.stuck_cpu_ms, run.stuck_wall_ms, SOLO_LIMITS.cpu_ms, SOLO_LIMITS.wall.as_secs()))
             }
         };
         let Some(call) = run.last_c.clone() else {
@@ -369,6 +435,9 @@ fn solo(item: &inputs::Item, fe0_only_from_start: bool) -> SoloResult {
         };
         let is_probe = call.starts_with("probe:");
         let stage = if is_probe { call.trim_start_matches("probe:").to_string() } else { stage_hint.clone().unwrap_or_else(|| "execute".into()) };
+        if kind == "timeout" {
+            res.hang_stages.push(stage.clone());
+        }
         let viol = death_violation(item, &call, &stage, kind, &detail);
         if seen.insert(format!("{}|{}", viol.sig_string(), if is_probe { "probe" } else { "fe" })) {
             res.violations.push(viol);
@@ -377,7 +446,8 @@ fn solo(item: &inputs::Item, fe0_only_from_start: bool) -> SoloResult {
             stage_hint = Some(stage);
             only_fe0 = true;
             skip = 0;
-        } else if only_fe0 {
+        } else if only_fe0 || item.family == "ladder" {
+            // ladders: one dead front-end call per string is enough (the other databases/parameter maps repeat it at a high price)
             break;
         } else {
             // resume after the offending front-end call
@@ -449,14 +519,15 @@ struct Shard {
     slow: Vec<(u64, usize)>,
     child_runs: u64,
     slow_rechecks: u64,
+    fast_path_hangs: u64,
 }
 
 fn process_chunk(space: &Space, tier: Tier, lo: usize, hi: usize) -> Shard {
-    let mut sh = Shard { rep: Report::new("C12", tier, "exploration"), stats: BTreeMap::new(), ladder: BTreeMap::new(), slow: vec![], child_runs: 0, slow_rechecks: 0 };
+    let mut sh = Shard { rep: Report::new("C12", tier, "exploration"), stats: BTreeMap::new(), ladder: BTreeMap::new(), slow: vec![], child_runs: 0, slow_rechecks: 0, fast_path_hangs: 0 };
     let mut cur = lo;
     while cur < hi {
         let args = vec!["--worker".to_string(), tier.as_str().to_string(), cur.to_string(), hi.to_string()];
-        let run = run_child(&args, BATCH_DEADLINE);
+        let run = run_child(&args, BATCH_LIMITS);
         sh.child_runs += 1;
         // completed strings
         let mut panics: BTreeMap<usize, Vec<Value>> = BTreeMap::new();
@@ -518,9 +589,30 @@ fn process_chunk(space: &Space, tier: Tier, lo: usize, hi: usize) -> Shard {
                 if k < done_upto {
                     vcore::machinery_failure(&format!("worker died between strings ({k} already done): {:?}", run.end));
                 }
-                // string k is the suspect: re-run it alone, call by call
                 let item = space.get(k);
+                // fast path for hang candidates among the tiny strings once the same (language, stage) has been fully confirmed
+                if let (End::Timeout, Some(call)) = (&run.end, run.last_c.as_deref()) {
+                    let stage = stage_of_marker(call);
+                    if matches!(item.family, "tokens" | "mutant") && confirmed_hangs(item.lang, stage) >= FULL_CONFIRMATIONS {
+                        let detail = format!(
+                            "hang candidate: {} ms CPU / {} ms wall inside this one call in a batch (normal: < 20 ms); not re-run alone because {} hangs with the same language+stage were already confirmed with {} ms CPU",
+                            run.stuck_cpu_ms, run.stuck_wall_ms, FULL_CONFIRMATIONS, SOLO_LIMITS.cpu_ms
+                        );
+                        sh.rep.violation(death_violation(&item, call, stage, "timeout", &detail));
+                        sh.rep.evaluations += 1;
+                        sh.fast_path_hangs += 1;
+                        let st = sh.stats.entry((item.lang, item.family)).or_default();
+                        st.strings += 1;
+                        st.timeout_strings += 1;
+                        cur = k + 1;
+                        continue;
+                    }
+                }
+                // string k is the suspect: re-run it alone, call by call
                 let sr = solo(&item, false);
+                for h in &sr.hang_stages {
+                    note_confirmed_hang(item.lang, h);
+                }
                 sh.child_runs += sr.child_runs as u64;
                 let st = sh.stats.entry((item.lang, item.family)).or_default();
                 st.strings += 1;
@@ -697,7 +789,7 @@ fn run(args: vcore::Args) -> i32 {
         }
         let step = match s.family {
             "tokens" => 4_000,
-            "ladder" => 60,
+            "ladder" => 6,
             _ => 400,
         };
         let mut a = s.start;
@@ -709,14 +801,25 @@ fn run(args: vcore::Args) -> i32 {
     }
     let filtered = only_family.is_some() || only_lang.is_some();
     let workers = vcore::cores();
-    let shards = vcore::par_map(&chunks, workers, |_, &(lo, hi)| process_chunk(&space, tier, lo, hi));
+    let timing = std::env::var("C12_TIMING").is_ok();
+    let shards = vcore::par_map(&chunks, workers, |_, &(lo, hi)| {
+        let t = Instant::now();
+        let sh = process_chunk(&space, tier, lo, hi);
+        if timing {
+            let s = space.seg_of(lo);
+            eprintln!("TIMING {:8} {:8} {lo}..{hi} {:.2}s children={}", s.lang.name(), s.family, t.elapsed().as_secs_f64(), sh.child_runs);
+        }
+        sh
+    });
 
     let mut stats: BTreeMap<(Lang, &'static str), FamStats> = BTreeMap::new();
     let mut ladder: BTreeMap<(Lang, String), (u32, u32)> = BTreeMap::new();
     let mut slow: Vec<(u64, usize)> = vec![];
     let mut child_runs = 0u64;
     let mut slow_rechecks = 0u64;
+    let mut fast_path_hangs = 0u64;
     for sh in shards {
+        fast_path_hangs += sh.fast_path_hangs;
         for (k, v) in sh.stats {
             stats.entry(k).or_default().add(&v);
         }
@@ -779,8 +882,9 @@ fn run(args: vcore::Args) -> i32 {
             "max_tokens": space.max_tokens,
             "ladder_depths": format!("1,2,4,...,2^{}", space.ladder_max_log2),
             "strings_total": space.total,
-            "batch_deadline_s_per_string": BATCH_DEADLINE.as_secs(),
-            "solo_deadline_s_per_call": SOLO_DEADLINE.as_secs(),
+            "hang_candidate_limits_per_call_in_batch": {"cpu_ms": BATCH_LIMITS.cpu_ms, "wall_s": BATCH_LIMITS.wall.as_secs()},
+            "timeout_verdict_limits_per_call_alone": {"cpu_ms": SOLO_LIMITS.cpu_ms, "wall_s": SOLO_LIMITS.wall.as_secs()},
+            "full_confirmations_per_language_and_stage_before_fast_path": FULL_CONFIRMATIONS,
             "case_thread_stack_bytes": worker::STACK_BYTES,
             "child_address_space_cap_bytes": worker::MEM_CAP_BYTES,
             "param_sets_when_query_mentions_a_parameter": worker::PARAM_SETS_FULL,
@@ -789,10 +893,11 @@ fn run(args: vcore::Args) -> i32 {
         }),
     );
     rep.set("child_processes", json!(child_runs));
-    rep.set("batch_timeouts_cleared_by_solo_rerun", json!(slow_rechecks));
+    rep.set("hang_candidates_cleared_by_solo_rerun", json!(slow_rechecks));
+    rep.set("hang_candidates_recorded_without_solo_rerun", json!(fast_path_hangs));
     rep.assumptions.push("A panic is observed through catch_unwind in the child; the C binding (crates/bindings/c) forwards to the same entry points without an unwind guard and is covered by implication only.".into());
     rep.assumptions.push("Stack-overflow thresholds are those of this build profile (opt-level 2, debug assertions, overflow checks) on an 8 MiB thread stack; other profiles shift the numbers, not the existence of unbounded recursion.".into());
-    rep.assumptions.push("Timeout verdicts come only from the solo re-run (30 s for one call); the 5 s batch deadline merely selects candidates.".into());
+    rep.assumptions.push("A timeout verdict means: re-run alone, one call consumed 3 s of CPU (or 30 s wall) without returning; CPU time, not wall time, is the primary clock so machine load cannot produce it. Exception, stated per violation: for strings of the families tokens/mutant (<= ~200 bytes) a call that burnt 0.2 s CPU is recorded without the 3 s re-run once two hangs of the same language+stage were confirmed in full.".into());
     if filtered {
         rep.exhaustive = false;
     }
